@@ -3,14 +3,22 @@ use crate::harness::Ctx;
 use serde_json::Value;
 
 pub mod c15;
+pub mod c25;
+pub mod c26;
+pub mod c27;
+pub mod c28;
 
 pub fn ids() -> Vec<&'static str> {
-    vec!["C15"]
+    vec!["C15", "C25", "C26", "C27", "C28"]
 }
 
 pub fn run(id: &str, ctx: &mut Ctx) -> bool {
     match id {
         "C15" => c15::run(ctx),
+        "C25" => c25::run(ctx),
+        "C26" => c26::run(ctx),
+        "C27" => c27::run(ctx),
+        "C28" => c28::run(ctx),
         _ => return false,
     }
     true
